@@ -84,6 +84,7 @@ def mirror_body(ctx: Ctx, p: dict) -> None:
         return
     compare(ctx, "right(A) vs left(B)", A.right, B.left)
     compare(ctx, "left(A) vs right(B)", A.left, B.right)
+    ctx.judged += 2 * sum(int(A.right[v].size) for v in A.right.data_vars if v != "disparity_interval")
     ivA, ivB = A.right["disparity_interval"].data, B.left["disparity_interval"].data
     if float(ivA[0]) != float(ivB[0]) or float(ivA[1]) != float(ivB[1]):
         ctx.violation("C08/right-interval-differs", f"{ivA.tolist()} vs {ivB.tolist()}")
